@@ -135,7 +135,7 @@ def run_lines(cmd, lines):
 def main(ctx):
     rng = random.Random(ctx.seed * 7211 + 13)
     quick = ctx.tier == "quick"
-    proofs_ok = ctx.lean_props("C13", extra_modules=["Ecpint.Props.C13a", "Ecpint.Props.C13b", "Ecpint.Props.C13c"])
+    proofs_ok = ctx.lean_props("C13", extra_modules=["Ecpint.Props.C13a", "Ecpint.Props.C13b", "Ecpint.Props.C13c", "Ecpint.Props.C13d", "Ecpint.Props.C13e"])
     b = build.build("plain")
     drv = build.compile_driver(b, "corr_angular.cpp")
     # (LB, LE): LB = basis angular momentum + derivative order <= MAX_L, LE <= MAX_L
